@@ -314,6 +314,26 @@ func (r Recipe) build() any {
 		return StrT{V: int(parseI(r.N))}
 	case "KeyT":
 		return KeyT{A: int(parseI(r.N)), B: 2}
+	case "errslice": // slice whose element type is a non-empty interface
+		out := make([]error, len(r.Elems))
+		for i, e := range r.Elems {
+			if e.K != "nil" {
+				out[i] = ErrT{Msg: e.S + e.N}
+			}
+		}
+		return out
+	case "stringerslice":
+		out := make([]fmt.Stringer, len(r.Elems))
+		for i, e := range r.Elems {
+			out[i] = StrT{V: int(parseI(e.N))}
+		}
+		return out
+	case "nilerrslice":
+		return []error(nil)
+	case "ifacearray":
+		return [2]error{ErrT{Msg: "x"}, nil}
+	case "mapiface":
+		return map[string]error{"e": ErrT{Msg: r.S}}
 	case "bytes":
 		return []byte(r.S)
 	case "rune":
@@ -437,7 +457,8 @@ func hostileValues() []Recipe {
 	one := []Recipe{numRecipe("int", "1")}
 	two := []Recipe{numRecipe("int", "1"), numRecipe("int", "2")}
 	nan1 := []Recipe{numRecipe("float64", "nan")}
-	for _, k := range []string{"anyslice", "intslice", "strslice", "f64slice", "mapslice", "typedslice", "array", "MySlice", "Rec"} {
+	out = append(out, Recipe{K: "nilerrslice"}, Recipe{K: "ifacearray"}, Recipe{K: "mapiface", S: "m"})
+	for _, k := range []string{"anyslice", "intslice", "strslice", "f64slice", "mapslice", "typedslice", "array", "MySlice", "Rec", "errslice", "stringerslice"} {
 		out = append(out, Recipe{K: k}, Recipe{K: k, Elems: one}, Recipe{K: k, Elems: two})
 	}
 	out = append(out, Recipe{K: "f64slice", Elems: nan1}, Recipe{K: "anyslice", Elems: nan1}, Recipe{K: "typedslice", Elems: nan1},
@@ -469,7 +490,7 @@ func genRecipe(rt *rapid.T, depth int) Recipe {
 	leaf := []string{"nil", "int", "int8", "int16", "int32", "int64", "uint", "uint8", "uint16", "uint32", "uint64", "float32", "float64",
 		"string", "bool", "MyInt", "MyStr", "MyFloat", "MyBool", "nilptr", "nilmap", "nilmapint", "nilslice", "nilanyslice", "nilfunc", "nilchan", "nilerr",
 		"func", "func2", "chan", "Tagged", "TaggedPtr", "Loose", "Partial", "WithSlice", "TaggedSlice", "ErrT", "error", "StrT", "KeyT", "complex", "bytes", "rune", "uintptr",
-		"mapint", "mapintkey", "mapstructkey", "MyMap", "MySlice", "Rec", "intslice", "strslice", "f64slice"}
+		"mapint", "mapintkey", "mapstructkey", "MyMap", "MySlice", "Rec", "intslice", "strslice", "f64slice", "errslice", "stringerslice", "nilerrslice", "ifacearray", "mapiface"}
 	comp := []string{"anyslice", "typedslice", "array", "map", "struct", "ptr", "mapslice"}
 	var k string
 	if depth <= 0 || uniform(rt, 3, "leaf") > 0 {
@@ -505,7 +526,7 @@ func genRecipe(rt *rapid.T, depth int) Recipe {
 				r.Elems[i] = e
 			}
 		}
-	case "intslice", "strslice", "f64slice", "MySlice", "Rec":
+	case "intslice", "strslice", "f64slice", "MySlice", "Rec", "errslice", "stringerslice":
 		n := rapid.IntRange(0, 3).Draw(rt, "nelem")
 		for i := 0; i < n; i++ {
 			e := Recipe{K: "int", N: hostileInts[uniform(rt, len(hostileInts), "ei")], S: "e" + strconv.Itoa(i)}
